@@ -95,6 +95,7 @@ package dns
 
 //@ func packDomainName [C03 C04]
 //@   requires 0 <= off
+//@   writes msg
 //@   ensures empty: len(s) == 0 ==> err == nil && off1 == off
 //@   ensures nofq:  len(s) > 0 && !IsFqdnSpec(s) ==> err != nil
 //@   ensures fail:  err != nil ==> off1 == len(msg) || off1 == off
@@ -131,6 +132,7 @@ package dns
 
 //@ func PackDomainName [C03 C04]
 //@   requires 0 <= off
+//@   writes msg
 //@   ensures empty: len(s) == 0 ==> err == nil && off1 == off
 //@   ensures nofq:  len(s) > 0 && !IsFqdnSpec(s) ==> err != nil
 //@   ensures acc:   !compress && err == nil && len(s) > 0 ==> ns63(s, 0, 0, false)
